@@ -20,7 +20,7 @@ READ_VERSIONS = rig.VERSIONS
 
 def plan(tier):
     return {
-        'level': 'exploration', 'shards': 16, 'budget_s': 80 if tier == 'quick' else 800,
+        'level': 'exploration', 'shards': 16, 'budget_s': 120 if tier == 'quick' else 800,
         'rule': 'Register of all seven object types with generated values (value lengths 1..1024, every enum member '
                 'of algorithm / format / secret / certificate / split-method types, 0-4 names of both name types, '
                 'groups, application-specific information, every mask subset class, Sensitive, key wrapping data with '
@@ -37,7 +37,7 @@ def plan(tier):
 
 
 def cases(tier, seed):
-    n = 48 if tier == 'quick' else 640
+    n = 192 if tier == 'quick' else 1280
     return [{'run': i} for i in range(n)]
 
 
@@ -515,8 +515,11 @@ def run_case(ctx, case):
                     if rb_.error is None and len(rb_.items) == 3 and rb_.ok(1):
                         got = T.kid(rb_.payload(1), OBJ_TAG['sym'])
                         if got != st.obj_tree:
-                            ctx.violation('sym|get|after-wrapped-get-in-batch', 'a plain Get following a wrapped Get of the same key in one '
-                                          'batch returns %s' % first_diff(st.obj_tree, got), {'uid': st.uid})
+                            # the mechanism is where the object differs (an object that already differs when read alone -
+                            # a listed finding - differs here in the same place)
+                            ctx.violation('sym|get|after-wrapped-get-in-batch:%s' % first_diff(st.obj_tree, got),
+                                          'a plain Get following a wrapped Get of the same key in one batch returns %s'
+                                          % first_diff(st.obj_tree, got), {'uid': st.uid})
             # final sweep after a restart, every object under one version each
             srv.restart()
             ctx.count('restarts')
